@@ -75,6 +75,7 @@ def plan(tier, seed):
     # (c) isobaric ideal gas
     for n, mixed, scale in [(1, False, True), (3, True, True), (8, False, False), (3, False, False)] + ([(8, True, True), (1, True, False)] if big else []):
         W.append({"kind": "isobaric", "name": f"isobaric-N{n}-{'mixed' if mixed else 'cell'}-{'scaled' if scale else 'unscaled'}", "n": n, "mixed": mixed, "scale": scale, "L": L["v"]})
+    W.append({"kind": "isobaric", "name": "isobaric-N5-constructor-moves-molecular-labels", "n": 5, "mixed": True, "scale": True, "ctor": True, "L": L["v"]})
     # (d) grand canonical ideal gas
     for lam, mol, tri, mixed in [(0.5, False, False, False), (3.0, False, True, True), (8.0, False, False, False), (3.0, True, False, False), (0.5, True, True, True)] + ([(8.0, True, False, True), (3.0, False, False, False)] if big else []):
         W.append({"kind": "grand", "name": f"grand-lam{lam}-{'N2' if mol else 'Ar'}-{'tri' if tri else 'cubic'}-{'mixed' if mixed else 'exch'}", "lam": lam, "mol": mol, "tri": tri, "mixed": mixed, "L": L["g"]})
@@ -162,10 +163,19 @@ def chain_isobaric(w, seed, L):
     edge = V0 ** (1 / 3) * float(np.exp(r.uniform(-0.2, 0.2)))
     atoms = Atoms("Ar" * n, positions=r.uniform(0, edge, (n, 3)), cell=[edge] * 3, pbc=True)
     atoms.calc = IdealGas()
-    mc = Isobaric(atoms, temperature=T, pressure=P, max_cycles=1, seed=seed)
-    mc.add_move(sims.build_move({"t": "C", "op": {"t": "Iso", "mv": 0.25}, "scale": w["scale"]}, None, {}), name="c", probability=1.0)
-    if w["mixed"]:
-        mc.add_move(sims.build_move({"t": "D", "op": {"t": "Ball", "step": 1.0}}, np.arange(n), {}), name="d", probability=1.0)
+    if w.get("ctor"):
+        # moves handed to the driver's constructor (default_displacement_move / default_cell_move), atoms grouped into
+        # molecules with one frozen atom (negative label): the volume law is that of N = n atoms all the same
+        lab = np.arange(n) // 2
+        lab[-1] = -1
+        mc = Isobaric(atoms, temperature=T, pressure=P, max_cycles=1, seed=seed, default_displacement_move=sims.build_move({"t": "D", "op": {"t": "Ball", "step": 1.0}}, lab, {}), default_cell_move=sims.build_move({"t": "C", "op": {"t": "Iso", "mv": 0.25}, "scale": w["scale"]}, None, {}))
+        mc.moves["default_cell_move"].probability = 1.0
+        mc.moves["default_displacement_move"].probability = 1.0
+    else:
+        mc = Isobaric(atoms, temperature=T, pressure=P, max_cycles=1, seed=seed)
+        mc.add_move(sims.build_move({"t": "C", "op": {"t": "Iso", "mv": 0.25}, "scale": w["scale"]}, None, {}), name="c", probability=1.0)
+        if w["mixed"]:
+            mc.add_move(sims.build_move({"t": "D", "op": {"t": "Ball", "step": 1.0}}, np.arange(n), {}), name="d", probability=1.0)
     out = np.empty(L)
     for i, _ in enumerate(mc.srun(L)):
         out[i] = atoms.cell.volume
